@@ -530,16 +530,12 @@ func filterpath(peer *peer, path, old *table.Path) *table.Path {
 
 		if ignore {
 			if !path.IsWithdraw && old != nil {
-				oldSource := old.GetSource()
-				if old.IsLocal() || oldSource.Address.String() != peer.ID() && oldSource.AS != peer.AS() {
-					// In this case, we suppose this peer has the same prefix
-					// received from another iBGP peer.
-					// So we withdraw the old best which was injected locally
-					// (from CLI or gRPC for example) in order to avoid the
-					// old best left on peers.
-					// Also, we withdraw the eBGP route which is the old best.
-					// When we got the new best from iBGP, we don't advertise
-					// the new best and need to withdraw the old best.
+				// The new best came from iBGP and is not advertised to this
+				// peer. If the old best was advertised to it - a locally
+				// injected route, an eBGP route, or a route reflected from or
+				// to a route reflector client - it has to be withdrawn, or it
+				// is left on the peer for good.
+				if filterpath(peer, old, nil) != nil {
 					return old.Clone(true)
 				}
 			}
